@@ -456,6 +456,12 @@ where
         let mut shift = -&jac_inv * &derivative;
         guess += &shift;
 
+        // The first step is a step like any other: if it is within tolerance the
+        // iteration has converged (a zero step would make the update below 0/0)
+        if shift.norm() <= self.tolerance.real() {
+            return Ok(guess);
+        }
+
         while n < 1000 {
             let derivative_last = derivative;
             derivative = g(
